@@ -24,7 +24,11 @@ for d in sorted(glob.glob("/verif/seeded/C*-*")):
     caught = []
     for c, r in (m.get("checks_run") or {}).items():
         caught.append("%s: %s" % (c, ("VIOLATION (" + "; ".join(r["signatures"][:2]) + ")") if r["detected"] else "missed (exit %s)" % r["exit"]))
-    out.append("| %s | %s — needs: %s | yes | %s |" % (os.path.basename(d), summ, need, "; ".join(caught)))
+    rc = m.get("reconfirmed") or {}
+    conf = "yes"
+    if rc:
+        conf = "yes (re-confirmed at /repo %s)" % rc.get("head") if rc.get("confirmed") else "when kept; at /repo %s: %s" % (rc.get("head"), (rc.get("note") or "not re-confirmed").replace("|", "/"))
+    out.append("| %s | %s — needs: %s | %s | %s |" % (os.path.basename(d), summ, need, conf, "; ".join(caught)))
 text = "\n".join(out)
 p = "/verif/DESIGN.md"
 s = open(p).read()
